@@ -182,6 +182,9 @@ def run(R, only=None):
             diff = [(x, y) for x, y in zip(a, b) if x != y][:2]
             R.property_fails("KF_C01_null_unsound_expr_rules" if hit else None,
                              f"C01 `{q}` (an instance of rule {name}) differs with the optimiser on / off, e.g. {diff}", rep)
+    kf_rules = sorted({r for f in known_findings("C01") if f.get("status") == "open" for r in f.get("rules", [])})
+    tail_steps = lambda q: [{"explain": q}, {"sql": q}, {"sql": "pragma disable_optimizer"}, {"sql": q},
+                            {"sql": "pragma enable_optimizer"}, {"disable_rules": kf_rules}, {"sql": q}]
     # ---- end-to-end differential ------------------------------------------------------------------------------
     n = 500 if R.tier == "quick" else 8000
     cases = []
@@ -219,7 +222,7 @@ def run(R, only=None):
         if R.rng.random() < 0.3:
             steps.append({"sql": f"set mock_rowcount_a = {R.rng.choice([0, 1, 1000, 100000])}"})
             steps.append({"sql": f"set mock_rowcount_b = {R.rng.choice([0, 1, 1000, 100000])}"})
-        steps += [{"explain": q}, {"sql": q}, {"sql": "pragma disable_optimizer"}, {"sql": q}]
+        steps += tail_steps(q)
         cases.append({"engine": engine, "steps": steps, "q": q, "ks": ks, "tags": tags, "a": a_b, "b": b_b})
     # keyed tables (disk: key-range scans pushed into the scan, storage order) and partially ordered inputs
     for i in range(120 if R.tier == "quick" else 1500):
@@ -236,6 +239,11 @@ def run(R, only=None):
             (f"select k, v from p where k >= {c}", None), (f"select k, v from p where {c} <= k", None), (f"select k, v from p where k > {c}", None),
             (f"select k, v from p where k >= {lo} and k <= {hi}", None), (f"select k, v from p where {hi} >= k and {lo} <= k and v > 0", None),
             (f"select k, v from p where k = {c}", None), (f"select count(*) from p where k <= {c} and v is not null", None),
+            # several bounds on the key in one conjunction (the range analysis has to combine them)
+            (f"select k, v from p where k = {hi} and k > {lo}", None), (f"select k, v from p where k > {lo} and k = {hi}", None),
+            (f"select k, v from p where k = {lo} and k < {hi}", None), (f"select k, v from p where k >= {lo} and k > {c2}", None),
+            (f"select k, v from p where k < {hi} and k <= {c}", None), (f"select k, v from p where k > {lo} and k >= {c} and k < {hi + 2}", None),
+            (f"select k, v from p where k = {c} and k = {c2}", None), (f"select k, v from p where k >= {lo} and k = {c2} and k <= {hi}", None),
             ("select k, v from p order by k, v", [(0, False), (1, False)]), ("select k, v from p order by k, v desc", [(0, False), (1, True)]),
             ("select k, v from p order by k", [(0, False)]),
             ("select k, v from (select k, v from p order by k) t order by k, v", [(0, False), (1, False)]),
@@ -244,6 +252,13 @@ def run(R, only=None):
             ("select x, y from (select x, y from a order by x) t order by x, y", [(0, False), (1, False)]),
             ("select x, y, count(*) from (select x, y from a order by x) t group by x, y", None),
             ("select p.k, p.v, q.v from p join p q on p.k = q.k and p.v = q.v", None),
+            # joins on a primary key with a residual condition over both sides (the cost model prefers a hash join on a key)
+            ("select p.k, p.v, a.x, a.y from p left join a on p.k = a.x and p.v < a.y", None),
+            ("select a.x, a.y, p.k, p.v from a left join p on a.x = p.k and a.y < p.v", None),
+            ("select a.x, a.y, p.k, p.v from a left join p on a.x = p.k and a.y <> p.v", None),
+            ("select p.k, p.v, a.x, a.y from p join a on p.k = a.x and p.v < a.y", None),
+            ("select p.k, a.y from p join a on p.k = a.x where a.y >= p.v or p.v is null", None),
+            ("select a.x, a.y from a where exists (select 1 from p where p.k = a.x and p.v > a.y)", None),
         ])
         a_b, b_b = c02.gen_db(rng)
         steps = [{"sql": "create table p(k int primary key, v int)"}, {"sql": "create table a(x int, y int, s varchar)"}]
@@ -252,17 +267,18 @@ def run(R, only=None):
                 steps.append({"sql": "insert into p values " + ", ".join(f"({k}, {c02.lit(v)})" for k, v in part)})
         for batch in a_b:
             steps.append({"sql": "insert into a values " + ", ".join("(" + ", ".join(c02.lit(v) for v in r) + ")" for r in batch)})
-        steps += [{"explain": q}, {"sql": q}, {"sql": "pragma disable_optimizer"}, {"sql": q}]
+        steps += tail_steps(q)
         cases.append({"engine": rng.choice(["disk", "disk", "mem"]), "steps": steps, "q": q, "ks": ks, "tags": {"keyed"}, "a": a_b, "b": []})
     outs = run_harness("sql", [{"engine": c["engine"], "steps": c["steps"]} for c in cases], jobs=16)
     kinds, compared = {}, 0
+    kf_attr = [0]
     for c, o in zip(cases, outs):
         rep = {"kind": "sql-script", "case": {"engine": c["engine"], "steps": c["steps"]}}
         for t in c["tags"]:
             kinds[t] = kinds.get(t, 0) + 1
         if not isinstance(o, list) or len(o) < len(c["steps"]):
             continue                   # aborts while planning are C17's subject
-        plan, on, off = o[-4], o[-3], o[-1]
+        plan, on, off, on2 = o[-7], o[-6], o[-4], o[-1]
         if "ok" not in off:
             continue                   # the bound plan itself does not run: nothing to compare with
         txt = json.dumps(on)
@@ -293,7 +309,17 @@ def run(R, only=None):
                 klass = "KF_C01_filter_below_limit"
             elif {"null-rules", "conflict"} & c["tags"]:
                 klass = "KF_C01_null_unsound_expr_rules"
-            R.property_fails(klass, f"C01 `{c['q']}` ({c['engine']}): optimiser on {sorted(a)[:4]}.. ({len(a)} rows), off {sorted(b)[:4]}.. ({len(b)} rows)", rep)
+            note = ""
+            if klass in ("KF_C01_outer_join_condition_pushdown", "KF_C01_filter_below_limit"):
+                # a known finding is identified by its rules: the difference must disappear when the optimiser runs without them
+                a2 = sorted(json.dumps(r) for r in on2["ok"][0]["rows"]) if "ok" in on2 else None
+                if a2 != sorted(b) and "limit" not in c["q"]:
+                    klass, note = None, " — and it persists when the optimiser runs without the rules of the known findings"
+                elif "limit" in c["q"] and (a2 is None or len(a2) != len(b)):
+                    klass, note = None, " — and it persists when the optimiser runs without the rules of the known findings"
+                else:
+                    kf_attr[0] += 1
+            R.property_fails(klass, f"C01 `{c['q']}` ({c['engine']}): optimiser on {sorted(a)[:4]}.. ({len(a)} rows), off {sorted(b)[:4]}.. ({len(b)} rows){note}", rep)
     R.coverage.update({
         "evaluations": len(jobs) + compared, "distinct_nontrivial": len(info.get("expr_sound", [])) + len(info.get("expr_refuted", {})),
         "rule": "every rw!(..) of src/planner/rules/{expr,plan,order,range}.rs is read on every run and compared with the compiled rule objects; each of the "
@@ -307,7 +333,7 @@ def run(R, only=None):
         "plan_rules_proved_sound": info.get("plan_sound", []), "plan_rule_instances_proved_sound": info.get("plan_instances_sound", []),
         "plan_rules_refuted": sorted(info.get("plan_refuted", {})),
         "plan_rules_not_proved": sorted(set(info.get("plan_rules", [])) - set(info.get("plan_sound", [])) - set(info.get("plan_refuted", {}))),
-        "plan_rule_instances": pstats, "rule_instances_differing": inst_diff, "query_kind_distribution": kinds, "queries_compared": compared,
+        "plan_rule_instances": pstats, "rule_instances_differing": inst_diff, "differences_attributed_to_known_rules_by_disabling_them": kf_attr[0], "query_kind_distribution": kinds, "queries_compared": compared,
     })
     R.coverage["trusted_base"].append("tools/translate_rules.py (regex reading of rw!(..) and of the pushdown(..) helper; its reading of names and patterns is "
                                       "compared with the compiled rule objects on every run; its reading of the side conditions is trusted)")
